@@ -21,7 +21,7 @@ def sh(cmd, **kw):
 
 
 def baseline_ok(tree):
-    out = "/tmp/seed-junit.xml"
+    out = "/tmp/seed-junit-%d.xml" % os.getpid()
     sh("cd %s && env -u XDIS_VERIF_HOOKS /venv/bin/python -m pytest -q -p no:cacheprovider --timeout=900 --continue-on-collection-errors --junitxml=%s" % (tree, out))
     import xml.etree.ElementTree as ET
     base = json.load(open("/root/.vp/BASELINE.json"))
